@@ -32,7 +32,11 @@ var registry = map[string]entry{
 	"C15": {"exploration", props.C15},
 	"C24": {"exploration", props.C24},
 	"C25": {"exploration", props.C25},
+	"C26": {"exploration", props.C26},
 	"C27": {"exploration", props.C27},
+	"C30": {"exploration", props.C30},
+	"C31": {"exploration", props.C31},
+	"C32": {"exploration", props.C32},
 	"C28": {"exploration", props.C28},
 	"C20": {"exploration", comp.C20},
 	"C21": {"exploration", comp.C21},
